@@ -31,6 +31,17 @@ KNOWN = os.path.join(VERIF, "known_findings.jsonl")
 GUARD = "BLUETOE_VERIF"
 NCPU = os.cpu_count() or 4
 
+
+def jobs(limit=None):
+    """degree of parallelism to use right now: all cores on a quiet machine, few on a loaded one"""
+    try:
+        load = os.getloadavg()[0]
+    except OSError:
+        load = 0
+    n = NCPU if load < NCPU else (max(2, NCPU // 2) if load < 2 * NCPU else max(2, NCPU // 4))
+    n = int(os.environ.get("VERIF_JOBS", n))
+    return max(1, min(n, limit) if limit else n)
+
 INCLUDES = [
     "-I" + REPO,
     "-I" + REPO + "/bluetoe/utility/include",
@@ -219,7 +230,7 @@ def tlc(module_dir, module, cfg, *, workers=None, timeout=900, env=None, simulat
     d = module_dir if os.path.isabs(module_dir) else os.path.join(SPEC, module_dir)
     meta = tempfile.mkdtemp(prefix="tlcmeta_", dir=os.path.join(BUILD))
     cmd = ["timeout", str(timeout), "tlc", "-noGenerateSpecTE", "-metadir", meta,
-           "-workers", str(workers or NCPU), "-config", cfg]
+           "-workers", str(min(workers or NCPU, jobs())), "-config", cfg]
     if simulate:
         cmd += ["-simulate", "num=%d" % simulate]
     if depth:
@@ -234,7 +245,7 @@ def tlc(module_dir, module, cfg, *, workers=None, timeout=900, env=None, simulat
         cmd += extra
     cmd += [module]
     e = dict(os.environ)
-    jopts = "-Xmx%s" % heap
+    jopts = "-Xmx%s -XX:ParallelGCThreads=2 -XX:CICompilerCount=2" % heap
     if dfs_queue:
         jopts += " -Dtlc2.tool.queue.IStateQueue=StateDeque"
     e["JAVA_TOOL_OPTIONS"] = jopts
@@ -327,8 +338,8 @@ def split_executions(trace_path):
 def validate_parallel(module_dir, module, cfg, trace_paths, **kw):
     """validate several trace files concurrently (one TLC each). -> dict path -> TraceVerdict"""
     from concurrent.futures import ThreadPoolExecutor
-    jobs = max(1, min(len(trace_paths), NCPU // 2))
-    with ThreadPoolExecutor(jobs) as ex:
+    njobs = max(1, min(len(trace_paths), jobs() // 2))
+    with ThreadPoolExecutor(njobs) as ex:
         res = list(ex.map(lambda p: validate_trace(module_dir, module, cfg, p, **kw), trace_paths))
     return dict(zip(trace_paths, res))
 
@@ -360,7 +371,7 @@ def build(check, name, sources, *, flags=None, compiler="g++", sanitize=True, st
 def build_many(check, jobs):
     """jobs: list of dict(name=, sources=, ...) compiled in parallel"""
     from concurrent.futures import ThreadPoolExecutor
-    with ThreadPoolExecutor(min(len(jobs), NCPU)) as ex:
+    with ThreadPoolExecutor(min(len(jobs), globals()["jobs"]())) as ex:
         return list(ex.map(lambda j: build(check, **j), jobs))
 
 
